@@ -11,7 +11,10 @@ import (
 )
 
 // isValidator: in the list and not watch-only.
-func (n *Node) isValidator() bool { c := n.ctx(); return c.MyIndex >= 0 && !c.WatchOnly() }
+func (n *Node) isValidator() bool {
+	c := n.ctx()
+	return c.MyIndex >= 0 && !c.WatchOnly() && !n.watchNow // watchNow: the callback says watch-only, whatever the library has sampled
+}
 
 func (n *Node) cvMap(h uint32) map[uint16]byte {
 	m := n.cvSeen[h]
@@ -408,7 +411,7 @@ func (n *Node) monAfter(what string, in *Payload, pre apiPre, quietCheck bool) {
 	}
 
 	// ---- C03: commit lock
-	if m.locked && c.BlockIndex == m.height && c.ViewNumber != m.lockView {
+	if m.locked && c.BlockIndex == m.height && c.ViewNumber != m.lockView && !n.watchNow { // (a validator switched to watch-only follows the network like any observer; it is silent, which C13 checks)
 		w.violate("C03", "C03/view-changed-after-commit", n, fmt.Sprintf("view moved %d -> %d after own (pre)commit", m.lockView, c.ViewNumber))
 	}
 
